@@ -109,7 +109,7 @@ fn main() {
         "C10" => c_sched::check_c10(&ctx),
         "C11" => c_sched::check_c11(&ctx),
         "C17" => c_codec::check_c17(&ctx),
-        "C18" => c_proc::check_c18(&ctx),
+        "C18" => c_proc::check_c18_supervised(&ctx),
         "C03" | "C04" | "C07" | "C08" | "C16" | "C20" if ctx.replay.is_some() => c_vec::replay_vec(&ctx, c_vec::replay_cfg(&prop)),
         "C01" => c_raw::check_c01(&ctx),
         "C02" => c_raw::check_c02(&ctx),
